@@ -398,6 +398,15 @@ func genLog(g *common.Gen, r *common.Rand) {
 		case x < 88:
 			g.Op("timeout %d", b)
 			g.Stat("timeout")
+		case x < 91:
+			// a run of lost fetches of one peer (several consecutive time-outs), then the network
+			// is fine again and nothing else happens: the peer must still catch up
+			g.Op("sync %d 0", b)
+			for j := common.Pick(r, []int{3, 3, 4, 7}); j > 0; j-- {
+				g.Op("timeout %d", b)
+			}
+			g.Op("drain %d", b)
+			g.Stat("timeout-run")
 		default:
 			g.Op("drain %d", b)
 			g.Stat("drain")
